@@ -210,6 +210,11 @@ func ruleGlobalSettingPhase(c *Ctx) {
 	c.need(rule, h, "return", func(x ssa.Instruction) bool { r, ok := x.(*ssa.Return); return ok && retIsNilErr(r) }, []Ev{ge, ne, inc}, func(hh []bool) bool { return !hh[0] || hh[1] || hh[2] },
 		"a local maximum >= the requested MaxTS is reported only after the equal case was split off and bumped by one (a global timestamp never equals a local one)")
 	writeTSO := F(P.Method(tso, "LocalTSOAllocator", "WriteTSO"))
+	getSkip0 := F(P.Method("github.com/pingcap/kvproto/pkg/pdpb", "SyncMaxTSRequest", "GetSkipCheck"))
+	skipped := guardCall("request.SkipCheck", true, callMatcher(getSkip0))
+	lt := guardRel("local max < requested max", "<", resultOfCall(cmp), isConstInt(0))
+	c.need(rule, h, "call WriteTSO", instrCallMatcher(writeTSO), []Ev{skipped, lt}, anyOf,
+		"the requested MaxTS is written (and reported as accepted) only when it is strictly above every local timestamp, or the caller already validated it (skipCheck)")
 	failed := &failEv{okEv: newOkEv(h, "WriteTSO failed", callMatcher(writeTSO))}
 	c.need(rule, h, "successful return", func(x ssa.Instruction) bool { r, ok := x.(*ssa.Return); return ok && retIsNilErr(r) }, []Ev{failed}, func(hh []bool) bool { return !hh[0] },
 		"a failed WriteTSO is never reported as synced")
